@@ -367,6 +367,11 @@ def run(chk):
                 bad.append((n, "mutates self.%s: the answer can depend on earlier calls" % n.func.value.attr))
             if isinstance(n, ast.Name) and isinstance(n.ctx, ast.Load) and n.id in f.module.assigns and isinstance(f.module.assigns[n.id], (ast.List, ast.Dict, ast.Set, ast.Call)) and f.name in ("get_node", "murmur3_32", "_make_client_key"):
                 bad.append((n, "reads the module-level mutable `%s`" % n.id))
+        if f.name in ("get_node", "murmur3_32", "_make_client_key", "normalize_server_spec"):
+            from .report import memory_between_calls
+
+            have = {id(n_) for n_, w_ in bad}
+            bad += [(n_, w_ + ": the answer can depend on earlier calls") for n_, w_ in memory_between_calls(f) if id(n_) not in have and not isinstance(n_, (ast.Global, ast.Nonlocal))]
         for n, what in bad:
             r1.fail("%s:impure:%s" % (f.qualname, what.split(":")[0].replace(" ", "-")[:40]), "%s %s" % (f.qualname, what), fn=f, node=n)
         if not bad:
@@ -558,6 +563,11 @@ def run(chk):
     from . import rules_C19, report
 
     report.include_rules(chk, r4, rules_C19, ("C19.R2",), "after re-discovery the rotation is exactly the advertised node set, whatever the failover history")
+    # the published rule names the hash: placement is the argmax of MurmurHash3_x86_32 scores, so a murmur3_32 that
+    # differs from it (for long strings, for some bytes) moves keys away from where other clients of the cluster put them
+    from . import rules_C14
+
+    report.include_rules(chk, r2, rules_C14, ("C14.R1", "C14.R3"), "the default hash function is MurmurHash3 x86_32")
     # the normaliser only cuts the spec apart: host and port of the result are pieces of the given text, never text
     # that some other function produced from it (case folding, URL / IDNA canonicalisation, ...), so two spellings are
     # told apart or identified by exactly the documented rules
